@@ -5,6 +5,9 @@ use std::time::{Duration, Instant};
 use crate::orch::{conclude, run_workers, CheckSpec, Ctx, Out, Tier, WorkerPlan};
 
 pub mod c01;
+pub mod c14;
+pub mod c20;
+pub mod crash;
 pub mod seqchecks;
 
 pub struct Check {
@@ -18,6 +21,10 @@ pub struct Check {
 pub fn get(id: &str) -> Option<Check> {
     match id {
         "C01" => Some(c01::check()),
+        "C03" => Some(crash::check("C03")),
+        "C09" => Some(crash::check("C09")),
+        "C14" => Some(c14::check()),
+        "C20" => Some(c20::check()),
         "C02" => Some(seqchecks::check("C02")),
         "C05" => Some(seqchecks::check("C05")),
         "C12" => Some(seqchecks::check("C12")),
